@@ -487,7 +487,11 @@ pub fn to_duration(num: &Number) -> Result<Duration, String> {
     let (ms, rem) = ms.div_rem(&Numeric::from(1));
     // rem is a fraction of a millisecond
     let ns = &rem * &Numeric::from(1_000_000);
-    Ok(Duration::milliseconds(ms.to_int().unwrap()) + Duration::nanoseconds(ns.to_int().unwrap()))
+    match (ms.to_int(), ns.to_int()) {
+        (Some(ms), Some(ns)) => Ok(Duration::milliseconds(ms) + Duration::nanoseconds(ns)),
+        // NaN and infinities
+        _ => Err("Implementation error: Number is not a finite duration".to_string()),
+    }
 }
 
 pub fn from_duration(duration: &Duration) -> Result<Number, String> {
